@@ -15,6 +15,9 @@ extstrip = None
 class LinkEntry(GopherEntry):
     def __init__(self, selector: str, config: configparser.ConfigParser):
         super().__init__(selector, config)
+        # Unlike a directory entry, a link block has no number unless it
+        # says so; otherwise merging it would reset the number to 0.
+        self.num = None
         self.needsmerge = False
         self.needsabspath = False
 
